@@ -28,6 +28,28 @@ def run_real(progs, tag, extra=None, timeout=1200):
     return outs
 
 
+GO_PANIC_MARKS = (b"invalid memory address or nil pointer dereference", b"runtime error: index out of range", b"runtime error: slice bounds out of range",
+                  b"interface conversion:", b"runtime error: integer divide by zero")
+
+
+def go_panic_text(o):
+    """the first string token of a run (emitted values, results, error value) that carries the text of a Go run-time panic"""
+    def walk(x):
+        if isinstance(x, list):
+            if len(x) == 2 and x[0] == "s" and isinstance(x[1], list):
+                b = bytes(v & 255 for v in x[1])
+                for m in GO_PANIC_MARKS:
+                    if m in b:
+                        return b.decode("latin-1")[:160]
+                return None
+            for y in x:
+                r = walk(y)
+                if r:
+                    return r
+        return None
+    return walk(o.get("emits")) or walk(o.get("outcome"))
+
+
 def trace_records(progs, outs):
     recs = []
     for p in progs:
@@ -47,6 +69,10 @@ def validate(progs, outs, tag, stats, max_steps=20000, batch=150, module="LuaSem
         oc = o["outcome"][0]
         if oc in ("crash", "hang", "gopanic", "loaderr"):
             verdicts[p["id"]] = {"id": p["id"], "v": "bad", "at": -1, "exp": "a Lua outcome", "got": o["outcome"], "why": oc}
+        elif go_panic_text(o) and not any(m in p["src"].encode("latin-1", "replace") for m in GO_PANIC_MARKS):
+            # a Go run-time panic (nil dereference, index out of range, failed type assertion) that surfaced as the
+            # text of a Lua error: no specification admits it, whether or not the position of that error is judged
+            verdicts[p["id"]] = {"id": p["id"], "v": "bad", "at": -1, "exp": "a Lua outcome", "got": go_panic_text(o), "why": "go-runtime-panic-text"}
         else:
             todo.append(p)
     recs = trace_records(todo, outs)
